@@ -3,16 +3,22 @@ package main
 // Engine `mw` — C19: middleware chains run in order and are re-entrant.
 //
 // A middleware (stage) is a small program (see lean/Driver/Middleware.lean for the grammar shared with
-// the model); messages and contexts carry integer tokens so that what every stage RECEIVES is
-// observable; the innermost handler is a script. For each case the engine
+// the model); a message carries an integer token AND the operation it requests, a context carries an
+// integer token, so that what every stage RECEIVES is observable; the operation handlers are scripts.
+// On the server, operation 1 (Activate) and operation 2 (Revoke) are routed to two DISTINCT handlers,
+// operation 3 (Archive) has no handler; every handler logs who it is, the token and the TYPE of the
+// payload it was given; the operation echoed by every response item is part of the result tokens.
+// For each case the engine
 //   - installs the stage programs as REAL middlewares of a real kmipclient.Client (WithMiddlewares),
 //     of a real kmipserver.BatchExecutor message chain (Use) or batch item chain (BatchItemUse),
 //     runs Client.Roundtrip / BatchExecutor.HandleRequest and records the trace;
 //   - predicts result and trace with a reference interpreter of plain nested composition
 //     (stage0(stage1(... core))) and checks the real trace against it and against the grammar of
 //     well-nested traces (oracle C19, independent of the Lean model);
-//   - registers the line `mw.run <kind> <chain> <core> <m0>,<c0>` to be answered by the Lean `runImpl`;
+//   - registers the line `mw.run <kind> <chain> <core> <m0>,<c0>,<op0>` to be answered by the Lean
+//     `runImpl`;
 //   - re-runs all the requests of a chain concurrently from several goroutines sharing the chain.
+// Only the public API of the library is used.
 
 import (
 	"context"
@@ -48,8 +54,15 @@ const (
 	mwLibErr   = 999
 )
 
-// mwR is (resp, err) as tokens.
-type mwR struct{ resp, err int }
+// mwMsg: a request (message or batch item): its token and the operation it requests.
+type mwMsg struct{ tok, op int }
+
+func (m mwMsg) String() string { return strconv.Itoa(m.tok) + "@" + strconv.Itoa(m.op) }
+
+// mwR is (resp, err) as tokens; rop is the operation echoed by the response (0 when resp is nil).
+type mwR struct{ resp, rop, err int }
+
+var mwNilR = mwR{mwNil, 0, mwNil}
 
 func (r mwR) isFail() bool { return r.err != mwNil || r.resp >= mwFailBase }
 
@@ -59,7 +72,12 @@ func mwOpt(v int) string {
 	}
 	return strconv.Itoa(v)
 }
-func (r mwR) String() string { return mwOpt(r.resp) + "/" + mwOpt(r.err) }
+func (r mwR) String() string {
+	if r.resp == mwNil {
+		return "n/" + mwOpt(r.err)
+	}
+	return strconv.Itoa(r.resp) + "@" + strconv.Itoa(r.rop) + "/" + mwOpt(r.err)
+}
 
 type mwTr struct {
 	konst bool
@@ -81,9 +99,9 @@ type mwRet struct {
 func (rt mwRet) eval(last mwR) mwR {
 	switch rt.mode {
 	case 'e':
-		return mwR{mwNil, last.err}
+		return mwR{mwNil, 0, last.err}
 	case 's':
-		return mwR{last.resp, mwNil}
+		return mwR{last.resp, last.rop, mwNil}
 	case 'F':
 		return rt.fixed
 	}
@@ -91,8 +109,9 @@ func (rt mwRet) eval(last mwR) mwR {
 }
 
 type mwAct struct {
-	op  string // c f m x r rf ro
+	op  string // c f m o x r rf ro
 	tr  mwTr
+	v   int // o: the new operation
 	ret mwRet
 }
 
@@ -125,32 +144,35 @@ type mwCase struct {
 	chainSrc string
 	core     mwCore
 	coreSrc  string
-	m0, c0   int
+	m0       mwMsg
+	c0       int
 }
 
 func (cs *mwCase) line() string {
-	return fmt.Sprintf("mw.run %s %s %s %d,%d", cs.kind, cs.chainSrc, cs.coreSrc, cs.m0, cs.c0)
+	return fmt.Sprintf("mw.run %s %s %s %d,%d,%d", cs.kind, cs.chainSrc, cs.coreSrc, cs.m0.tok, cs.c0, cs.m0.op)
 }
 
 type mwEvent struct {
-	k       byte // E C B X K
-	id      int  // stage id, or invocation number for K
-	m, c, h int
-	r       mwR
-	out     mwOut
+	k    byte // E C B X K
+	id   int  // stage id, or invocation number for K
+	hd   int  // K: the handler that ran
+	m    mwMsg
+	c, h int
+	r    mwR
+	out  mwOut
 }
 
 func (e mwEvent) String() string {
 	switch e.k {
 	case 'E', 'C':
-		return fmt.Sprintf("%c%d:%d:%d", e.k, e.id, e.m, e.c)
+		return fmt.Sprintf("%c%d:%s:%d", e.k, e.id, e.m, e.c)
 	case 'B', 'X':
 		return fmt.Sprintf("%c%d:%s", e.k, e.id, e.r)
 	}
-	return fmt.Sprintf("K%d:%d:%d:%d:%s", e.id, e.m, e.c, e.h, e.out)
+	return fmt.Sprintf("K%d:%d:%s:%d:%d:%s", e.id, e.hd, e.m, e.c, e.h, e.out)
 }
 
-// mwRec is the per-request recorder and the per-request state of the scripted handler.
+// mwRec is the per-request recorder and the per-request state of the scripted handlers.
 type mwRec struct {
 	cs     *mwCase
 	events []mwEvent
@@ -190,8 +212,9 @@ func (rec *mwRec) note(s string) {
 	}
 }
 
-// coreRun plays the handler script: the outcome depends on the invocation count and on the message.
-func (rec *mwRec) coreRun(m, c, h int) mwOut {
+// handlerRun plays the handler script for handler `hd`, given message m (token and payload type):
+// the outcome depends on the invocation count and on the message token.
+func (rec *mwRec) handlerRun(hd int, m mwMsg, c, h int) mwOut {
 	n := rec.calls
 	rec.calls++
 	out := rec.cs.core.dflt
@@ -199,59 +222,73 @@ func (rec *mwRec) coreRun(m, c, h int) mwOut {
 		out = rec.cs.core.outs[n]
 	}
 	for _, x := range rec.cs.core.rej {
-		if x == m {
+		if x == m.tok {
 			out = mwOut{false, 9}
 		}
 	}
-	rec.log(mwEvent{k: 'K', id: n, m: m, c: c, h: h, out: out})
+	rec.log(mwEvent{k: 'K', id: n, hd: hd, m: m, c: c, h: h, out: out})
 	return out
 }
 
-// mwCoreResult: how an outcome of the scripted handler reaches the last stage, per kind.
-func mwCoreResult(kind string, o mwOut) mwR {
+// mwRouted / mwHandlerOf: the route table installed on the server (the client's transport takes
+// every message).
+func mwRouted(kind string, op int) bool { return kind == "client" || op == 1 || op == 2 }
+func mwHandlerOf(kind string, op int) int {
+	if kind == "client" {
+		return 0
+	}
+	return op
+}
+
+// mwCoreResult: how an outcome of the handler that ran on a message requesting `op` reaches the last
+// stage, per kind; the response echoes `op`.
+func mwCoreResult(kind string, o mwOut, op int) mwR {
 	if o.ok {
-		return mwR{o.v, mwNil}
+		return mwR{o.v, op, mwNil}
 	}
 	switch kind {
 	case "client":
-		return mwR{mwNil, o.v}
+		return mwR{mwNil, 0, o.v}
 	case "srvmsg":
-		return mwR{mwFailBase + o.v, mwNil}
+		return mwR{mwFailBase + o.v, op, mwNil}
 	}
-	return mwR{0, o.v} // srvitem: executeItem returns the (empty) item together with the error
+	return mwR{0, op, o.v} // srvitem: executeItem returns the (empty) item together with the error
 }
 
-// mwFinish: what the entry point makes of the pair returned by the outermost stage.
-func mwFinish(kind string, r mwR) mwR {
+// mwFinish: what the entry point makes of the pair returned by the outermost stage (op0: the operation
+// of the request the entry point was given).
+func mwFinish(kind string, op0 int, r mwR) mwR {
 	switch kind {
 	case "srvmsg":
 		if r.err != mwNil {
-			return mwR{mwFailBase + r.err, mwNil}
+			return mwR{mwFailBase + r.err, 0, mwNil}
 		}
-		return mwR{r.resp, mwNil}
+		return mwR{r.resp, r.rop, mwNil}
 	case "srvitem":
 		switch {
-		case r.err != mwNil:
-			return mwR{mwFailBase + r.err, mwNil}
+		case r.resp == mwNil && r.err == mwNil:
+			return mwR{mwFailBase + mwLibErr, op0, mwNil}
 		case r.resp == mwNil:
-			return mwR{mwFailBase + mwLibErr, mwNil}
+			return mwR{mwFailBase + r.err, op0, mwNil}
+		case r.err != mwNil:
+			return mwR{mwFailBase + r.err, r.rop, mwNil}
 		}
-		return mwR{r.resp, mwNil}
+		return mwR{r.resp, r.rop, mwNil}
 	}
 	return r
 }
 
-func mwHdr(kind string, m0 int) int {
+func mwHdr(kind string, m0 mwMsg) int {
 	if kind == "client" {
 		return 0
 	}
-	return m0
+	return m0.tok
 }
 
 // mwInterp runs a stage program against `call` (its continuation at token level) and tells how the
 // stage returns: the return mode and the result of the latest call.
-func mwInterp(st *mwStage, m, c int, rec *mwRec, call func(m, c int) mwR) (mwRet, mwR) {
-	last := mwR{mwNil, mwNil}
+func mwInterp(st *mwStage, m mwMsg, c int, rec *mwRec, call func(m mwMsg, c int) mwR) (mwRet, mwR) {
+	last := mwNilR
 	do := func() {
 		rec.log(mwEvent{k: 'C', id: st.id, m: m, c: c})
 		last = call(m, c)
@@ -263,7 +300,9 @@ func mwInterp(st *mwStage, m, c int, rec *mwRec, call func(m, c int) mwR) (mwRet
 		}
 		switch a.op {
 		case "m":
-			m = a.tr.app(m)
+			m.tok = a.tr.app(m.tok)
+		case "o":
+			m.op = a.v
 		case "x":
 			c = a.tr.app(c)
 		case "c":
@@ -288,17 +327,23 @@ func mwInterp(st *mwStage, m, c int, rec *mwRec, call func(m, c int) mwR) (mwRet
 }
 
 // ---------------------------------------------------------------------------------------------
-// reference: plain nested composition, built from the inside out
+// reference: plain nested composition, built from the inside out. The innermost continuation acts on
+// the message IT IS GIVEN: the handler is the one registered for that message's operation.
 
-type mwTokNext func(m, c int) mwR
+type mwTokNext func(m mwMsg, c int) mwR
 
 func mwReference(cs *mwCase, budget int) (mwR, []mwEvent, bool) {
 	rec := &mwRec{cs: cs, budget: budget}
 	h := mwHdr(cs.kind, cs.m0)
-	var next mwTokNext = func(m, c int) mwR { return mwCoreResult(cs.kind, rec.coreRun(m, c, h)) }
+	var next mwTokNext = func(m mwMsg, c int) mwR {
+		if !mwRouted(cs.kind, m.op) {
+			return mwCoreResult(cs.kind, mwOut{false, mwLibErr}, m.op) // operation not supported
+		}
+		return mwCoreResult(cs.kind, rec.handlerRun(mwHandlerOf(cs.kind, m.op), m, c, h), m.op)
+	}
 	for i := len(cs.chain) - 1; i >= 0; i-- {
 		st, inner := &cs.chain[i], next
-		next = func(m, c int) mwR {
+		next = func(m mwMsg, c int) mwR {
 			rec.log(mwEvent{k: 'E', id: st.id, m: m, c: c})
 			rt, last := mwInterp(st, m, c, rec, inner)
 			r := rt.eval(last)
@@ -307,7 +352,7 @@ func mwReference(cs *mwCase, budget int) (mwR, []mwEvent, bool) {
 		}
 	}
 	r := next(cs.m0, cs.c0)
-	return mwFinish(cs.kind, r), rec.events, rec.over
+	return mwFinish(cs.kind, cs.m0.op, r), rec.events, rec.over
 }
 
 func mwRender(r mwR, evs []mwEvent) string {
@@ -338,34 +383,49 @@ func mwCheckNested(cs *mwCase, final mwR, evs []mwEvent) (string, string) {
 			oracle, msg = o, fmt.Sprintf("event %d: ", pos)+fmt.Sprintf(format, a...)
 		}
 	}
-	var run func(level, m, c int) mwR
-	run = func(level, m, c int) mwR {
+	var run func(level int, m mwMsg, c int) mwR
+	run = func(level int, m mwMsg, c int) mwR {
 		if oracle != "" {
 			return mwR{}
 		}
+		if level == n {
+			// the innermost continuation was given (m, c): it must act on THAT message
+			if !mwRouted(cs.kind, m.op) {
+				if pos < len(evs) && evs[pos].k == 'K' {
+					fail("substitution", "handler %d ran although the message passed on requests operation %d, which has no handler", evs[pos].hd, m.op)
+				}
+				return mwCoreResult(cs.kind, mwOut{false, mwLibErr}, m.op)
+			}
+			if pos >= len(evs) || evs[pos].k != 'K' {
+				got := "the end of the trace"
+				if pos < len(evs) {
+					got = evs[pos].String()
+				}
+				fail("substitution", "no handler ran on the message passed on (%s, operation %d has handler %d); got %s", m, m.op, mwHandlerOf(cs.kind, m.op), got)
+				return mwR{}
+			}
+			e := evs[pos]
+			if e.hd != mwHandlerOf(cs.kind, m.op) {
+				fail("substitution", "handler %d ran, but the message passed on requests operation %d (handler %d)", e.hd, m.op, mwHandlerOf(cs.kind, m.op))
+			}
+			if e.m != m || e.c != c {
+				fail("substitution", "handler received %s:%d, its predecessor passed %s:%d", e.m, e.c, m, c)
+			}
+			pos++
+			return mwCoreResult(cs.kind, e.out, m.op)
+		}
 		if pos >= len(evs) {
-			fail("order", "trace ends where stage/handler %d should start", level+1)
+			fail("order", "trace ends where stage %d should start", level+1)
 			return mwR{}
 		}
 		e := evs[pos]
-		if level == n {
-			if e.k != 'K' {
-				fail("order", "expected the handler, got %s", e)
-				return mwR{}
-			}
-			if e.m != m || e.c != c {
-				fail("substitution", "handler received %d:%d, its predecessor passed %d:%d", e.m, e.c, m, c)
-			}
-			pos++
-			return mwCoreResult(cs.kind, e.out)
-		}
 		id := cs.chain[level].id
 		if e.k != 'E' || e.id != id {
 			fail("order", "expected stage %d to be entered, got %s", id, e)
 			return mwR{}
 		}
 		if e.m != m || e.c != c {
-			fail("substitution", "stage %d received %d:%d, its predecessor passed %d:%d", id, e.m, e.c, m, c)
+			fail("substitution", "stage %d received %s:%d, its predecessor passed %s:%d", id, e.m, e.c, m, c)
 		}
 		pos++
 		for oracle == "" {
@@ -402,21 +462,25 @@ func mwCheckNested(cs *mwCase, final mwR, evs []mwEvent) (string, string) {
 	if oracle == "" && pos != len(evs) {
 		fail("order", "%d events after the end of the outermost stage", len(evs)-pos)
 	}
-	if oracle == "" && mwFinish(cs.kind, r) != final {
+	if oracle == "" && mwFinish(cs.kind, cs.m0.op, r) != final {
 		fail("entry-point", "outermost stage returned %s but the entry point returned %s", r, final)
 	}
 	return oracle, msg
 }
 
-// mwStraightProduct: for chains of unconditional programs, the product of the numbers of calls.
+// mwStraightProduct: for chains of unconditional programs that keep a routed operation, the product
+// of the numbers of calls.
 func mwStraightProduct(cs *mwCase) (int, bool) {
+	if !mwRouted(cs.kind, cs.m0.op) {
+		return 0, false
+	}
 	p := 1
 	for _, st := range cs.chain {
 		k := 0
 	body:
 		for _, a := range st.body {
 			switch a.op {
-			case "f", "rf", "ro":
+			case "f", "rf", "ro", "o":
 				return 0, false
 			case "c":
 				k++
@@ -489,96 +553,180 @@ func mwAtoi(s string) int {
 	return v
 }
 
-// mwMkReq builds a brand-new request message carrying token m (in the header and in the item).
-func mwMkReq(m int) *kmip.RequestMessage {
-	s := strconv.Itoa(m)
+// operations: 1 = Activate, 2 = Revoke (both routed on the server, to distinct handlers),
+// 3 = Archive (never routed); 0 = no operation; anything else maps to 8.
+func mwOperation(op int) kmip.Operation {
+	switch op {
+	case 1:
+		return kmip.OperationActivate
+	case 2:
+		return kmip.OperationRevoke
+	case 3:
+		return kmip.OperationArchive
+	}
+	return 0
+}
+
+func mwOpOf(o kmip.Operation) int {
+	switch o {
+	case kmip.OperationActivate:
+		return 1
+	case kmip.OperationRevoke:
+		return 2
+	case kmip.OperationArchive:
+		return 3
+	case 0:
+		return 0
+	}
+	return 8
+}
+
+// mwReqPayload builds the request payload TYPE of operation op carrying token tok.
+func mwReqPayload(m mwMsg) kmip.OperationPayload {
+	s := strconv.Itoa(m.tok)
+	switch m.op {
+	case 2:
+		return &payloads.RevokeRequestPayload{UniqueIdentifier: s, RevocationReason: kmip.RevocationReason{RevocationReasonCode: kmip.RevocationReasonCodeUnspecified}}
+	case 3:
+		return &payloads.ArchiveRequestPayload{UniqueIdentifier: s}
+	}
+	return &payloads.ActivateRequestPayload{UniqueIdentifier: s}
+}
+
+// mwPayloadMsg reads token and payload type from a request payload.
+func mwPayloadMsg(pl kmip.OperationPayload) mwMsg {
+	switch p := pl.(type) {
+	case *payloads.ActivateRequestPayload:
+		if p != nil {
+			return mwMsg{mwAtoi(p.UniqueIdentifier), 1}
+		}
+	case *payloads.RevokeRequestPayload:
+		if p != nil {
+			return mwMsg{mwAtoi(p.UniqueIdentifier), 2}
+		}
+	case *payloads.ArchiveRequestPayload:
+		if p != nil {
+			return mwMsg{mwAtoi(p.UniqueIdentifier), 3}
+		}
+	}
+	return mwMsg{-8, 8}
+}
+
+func mwMkItemReq(m mwMsg) *kmip.RequestBatchItem {
+	return &kmip.RequestBatchItem{Operation: mwOperation(m.op), RequestPayload: mwReqPayload(m)}
+}
+
+// mwMkReq builds a brand-new request message carrying token m.tok (in the header and in the item) and
+// requesting operation m.op.
+func mwMkReq(m mwMsg) *kmip.RequestMessage {
 	return &kmip.RequestMessage{
-		Header: kmip.RequestHeader{ProtocolVersion: kmip.V1_4, BatchCount: 1, ClientCorrelationValue: s},
-		BatchItem: []kmip.RequestBatchItem{{
-			Operation:      kmip.OperationActivate,
-			RequestPayload: &payloads.ActivateRequestPayload{UniqueIdentifier: s},
-		}},
+		Header:    kmip.RequestHeader{ProtocolVersion: kmip.V1_4, BatchCount: 1, ClientCorrelationValue: strconv.Itoa(m.tok)},
+		BatchItem: []kmip.RequestBatchItem{*mwMkItemReq(m)},
 	}
 }
 
-func mwMkItemReq(m int) *kmip.RequestBatchItem {
-	return &kmip.RequestBatchItem{
-		Operation:      kmip.OperationActivate,
-		RequestPayload: &payloads.ActivateRequestPayload{UniqueIdentifier: strconv.Itoa(m)},
-	}
-}
-
-func mwItemReqTok(bi *kmip.RequestBatchItem) int {
+func mwItemReqMsg(bi *kmip.RequestBatchItem, rec *mwRec) mwMsg {
 	if bi == nil {
-		return -8
+		return mwMsg{-8, 8}
 	}
-	pl, ok := bi.RequestPayload.(*payloads.ActivateRequestPayload)
-	if !ok || pl == nil {
-		return -8
-	}
-	return mwAtoi(pl.UniqueIdentifier)
-}
-
-func mwReqTok(msg *kmip.RequestMessage, rec *mwRec) int {
-	if msg == nil || len(msg.BatchItem) != 1 {
-		return -8
-	}
-	m := mwItemReqTok(&msg.BatchItem[0])
-	if h := mwAtoi(msg.Header.ClientCorrelationValue); h != m {
-		rec.note(fmt.Sprintf("message with header marker %d and item marker %d", h, m))
+	m := mwPayloadMsg(bi.RequestPayload)
+	if op := mwOpOf(bi.Operation); op != m.op {
+		rec.note(fmt.Sprintf("item with operation %d and payload type %d", op, m.op))
 	}
 	return m
 }
 
-// mwMkItemResp builds a response item for a token: 0 = no payload, >= failBase = failed item.
-func mwMkItemResp(tok int) *kmip.ResponseBatchItem {
+func mwReqMsg(msg *kmip.RequestMessage, rec *mwRec) mwMsg {
+	if msg == nil || len(msg.BatchItem) != 1 {
+		return mwMsg{-8, 8}
+	}
+	m := mwItemReqMsg(&msg.BatchItem[0], rec)
+	if h := mwAtoi(msg.Header.ClientCorrelationValue); h != m.tok {
+		rec.note(fmt.Sprintf("message with header marker %d and item marker %d", h, m.tok))
+	}
+	return m
+}
+
+// mwMkItemResp builds a response item echoing operation op for a token: 0 = no payload,
+// >= failBase = failed item.
+func mwMkItemResp(tok, op int) *kmip.ResponseBatchItem {
 	if tok == mwNil {
 		return nil
 	}
-	bi := &kmip.ResponseBatchItem{Operation: kmip.OperationActivate}
+	bi := &kmip.ResponseBatchItem{Operation: mwOperation(op)}
 	switch {
 	case tok >= mwFailBase:
 		bi.ResultStatus = kmip.ResultStatusOperationFailed
 		bi.ResultReason = kmip.ResultReasonGeneralFailure
 		bi.ResultMessage = "E" + strconv.Itoa(tok-mwFailBase)
 	case tok > 0:
-		bi.ResponsePayload = &payloads.ActivateResponsePayload{UniqueIdentifier: strconv.Itoa(tok)}
+		s := strconv.Itoa(tok)
+		switch op {
+		case 2:
+			bi.ResponsePayload = &payloads.RevokeResponsePayload{UniqueIdentifier: s}
+		case 3:
+			bi.ResponsePayload = &payloads.ArchiveResponsePayload{UniqueIdentifier: s}
+		default:
+			bi.ResponsePayload = &payloads.ActivateResponsePayload{UniqueIdentifier: s}
+		}
 	}
 	return bi
 }
 
-func mwItemRespTok(bi *kmip.ResponseBatchItem) int {
+// mwItemRespTok reads (token, echoed operation) from a response item.
+func mwItemRespTok(bi *kmip.ResponseBatchItem) (int, int) {
 	if bi == nil {
-		return mwNil
+		return mwNil, 0
 	}
+	op := mwOpOf(bi.Operation)
 	if bi.ResultStatus == kmip.ResultStatusOperationFailed {
-		return mwFailBase + mwMsgCode(bi.ResultMessage)
+		return mwFailBase + mwMsgCode(bi.ResultMessage), op
 	}
-	pl, ok := bi.ResponsePayload.(*payloads.ActivateResponsePayload)
-	if !ok || pl == nil {
-		return 0
+	switch p := bi.ResponsePayload.(type) {
+	case *payloads.ActivateResponsePayload:
+		if p != nil {
+			return mwAtoi(p.UniqueIdentifier), op
+		}
+	case *payloads.RevokeResponsePayload:
+		if p != nil {
+			return mwAtoi(p.UniqueIdentifier), op
+		}
+	case *payloads.ArchiveResponsePayload:
+		if p != nil {
+			return mwAtoi(p.UniqueIdentifier), op
+		}
 	}
-	return mwAtoi(pl.UniqueIdentifier)
+	return 0, op
 }
 
-func mwMkResp(tok int) *kmip.ResponseMessage {
+func mwMkResp(tok, op int) *kmip.ResponseMessage {
 	if tok == mwNil {
 		return nil
 	}
 	return &kmip.ResponseMessage{
 		Header:    kmip.ResponseHeader{ProtocolVersion: kmip.V1_4, BatchCount: 1},
-		BatchItem: []kmip.ResponseBatchItem{*mwMkItemResp(tok)},
+		BatchItem: []kmip.ResponseBatchItem{*mwMkItemResp(tok, op)},
 	}
 }
 
-func mwRespTok(resp *kmip.ResponseMessage) int {
+func mwRespTok(resp *kmip.ResponseMessage) (int, int) {
 	if resp == nil {
-		return mwNil
+		return mwNil, 0
 	}
 	if len(resp.BatchItem) != 1 {
-		return -8
+		return -8, 8
 	}
 	return mwItemRespTok(&resp.BatchItem[0])
+}
+
+func mwMsgR(resp *kmip.ResponseMessage, err error) mwR {
+	t, o := mwRespTok(resp)
+	return mwR{t, o, mwErrTok(err)}
+}
+
+func mwItemR(resp *kmip.ResponseBatchItem, err error) mwR {
+	t, o := mwItemRespTok(resp)
+	return mwR{t, o, mwErrTok(err)}
 }
 
 // ---------------------------------------------------------------------------------------------
@@ -592,11 +740,11 @@ func mwMsgStage(st *mwStage, next mwMsgNext, ctx context.Context, msg *kmip.Requ
 	rec := mwRecOf(ctx)
 	rec.enter()
 	defer rec.leave()
-	m, c := mwReqTok(msg, rec), mwCtxTok(ctx)
+	m, c := mwReqMsg(msg, rec), mwCtxTok(ctx)
 	rec.log(mwEvent{k: 'E', id: st.id, m: m, c: c})
 	var lastResp *kmip.ResponseMessage
 	var lastErr error
-	rt, _ := mwInterp(st, m, c, rec, func(m2, c2 int) mwR {
+	rt, _ := mwInterp(st, m, c, rec, func(m2 mwMsg, c2 int) mwR {
 		msg2, ctx2 := msg, ctx
 		if m2 != m {
 			msg2 = mwMkReq(m2) // never mutate the received message: build a new one
@@ -611,7 +759,7 @@ func mwMsgStage(st *mwStage, next mwMsgNext, ctx context.Context, msg *kmip.Requ
 		if rec.yield {
 			runtime.Gosched()
 		}
-		return mwR{mwRespTok(lastResp), mwErrTok(lastErr)}
+		return mwMsgR(lastResp, lastErr)
 	})
 	var resp *kmip.ResponseMessage
 	var err error
@@ -623,9 +771,9 @@ func mwMsgStage(st *mwStage, next mwMsgNext, ctx context.Context, msg *kmip.Requ
 	case 's':
 		resp = lastResp
 	case 'F':
-		resp, err = mwMkResp(rt.fixed.resp), mwMkErr(rt.fixed.err)
+		resp, err = mwMkResp(rt.fixed.resp, rt.fixed.rop), mwMkErr(rt.fixed.err)
 	}
-	rec.log(mwEvent{k: 'X', id: st.id, r: mwR{mwRespTok(resp), mwErrTok(err)}})
+	rec.log(mwEvent{k: 'X', id: st.id, r: mwMsgR(resp, err)})
 	return resp, err
 }
 
@@ -633,14 +781,14 @@ func mwItemStage(st *mwStage, next kmipserver.BatchItemNext, ctx context.Context
 	rec := mwRecOf(ctx)
 	rec.enter()
 	defer rec.leave()
-	m, c := mwItemReqTok(bi), mwCtxTok(ctx)
+	m, c := mwItemReqMsg(bi, rec), mwCtxTok(ctx)
 	rec.log(mwEvent{k: 'E', id: st.id, m: m, c: c})
 	var lastResp *kmip.ResponseBatchItem
 	var lastErr error
-	rt, _ := mwInterp(st, m, c, rec, func(m2, c2 int) mwR {
+	rt, _ := mwInterp(st, m, c, rec, func(m2 mwMsg, c2 int) mwR {
 		bi2, ctx2 := bi, ctx
 		if m2 != m {
-			bi2 = mwMkItemReq(m2)
+			bi2 = mwMkItemReq(m2) // a new item: operation AND payload type of m2
 		}
 		if c2 != c {
 			ctx2 = context.WithValue(ctx, mwCtxKey{}, c2)
@@ -652,7 +800,7 @@ func mwItemStage(st *mwStage, next kmipserver.BatchItemNext, ctx context.Context
 		if rec.yield {
 			runtime.Gosched()
 		}
-		return mwR{mwItemRespTok(lastResp), mwErrTok(lastErr)}
+		return mwItemR(lastResp, lastErr)
 	})
 	var resp *kmip.ResponseBatchItem
 	var err error
@@ -664,26 +812,25 @@ func mwItemStage(st *mwStage, next kmipserver.BatchItemNext, ctx context.Context
 	case 's':
 		resp = lastResp
 	case 'F':
-		resp, err = mwMkItemResp(rt.fixed.resp), mwMkErr(rt.fixed.err)
+		resp, err = mwMkItemResp(rt.fixed.resp, rt.fixed.rop), mwMkErr(rt.fixed.err)
 	}
-	rec.log(mwEvent{k: 'X', id: st.id, r: mwR{mwItemRespTok(resp), mwErrTok(err)}})
+	rec.log(mwEvent{k: 'X', id: st.id, r: mwItemR(resp, err)})
 	return resp, err
 }
 
-// mwHandler is the routed operation handler playing the handler script on the server.
-type mwHandler struct{}
+// mwHandler is a routed operation handler playing the handler script on the server; hd tells the
+// handlers apart (handler 1 is routed for Activate, handler 2 for Revoke). It accepts whatever
+// payload it is given and logs its type.
+type mwHandler struct{ hd int }
 
-func (mwHandler) HandleOperation(ctx context.Context, req kmip.OperationPayload) (kmip.OperationPayload, error) {
+func (hdl mwHandler) HandleOperation(ctx context.Context, req kmip.OperationPayload) (kmip.OperationPayload, error) {
 	rec := mwRecOf(ctx)
-	m := -8
-	if pl, ok := req.(*payloads.ActivateRequestPayload); ok && pl != nil {
-		m = mwAtoi(pl.UniqueIdentifier)
-	}
+	m := mwPayloadMsg(req)
 	// the request header the handler's context reports
 	h := mwAtoi(kmipserver.GetRequestHeader(ctx).ClientCorrelationValue)
-	out := rec.coreRun(m, mwCtxTok(ctx), h)
+	out := rec.handlerRun(hdl.hd, m, mwCtxTok(ctx), h)
 	if out.ok {
-		return &payloads.ActivateResponsePayload{UniqueIdentifier: strconv.Itoa(out.v)}, nil
+		return mwMkItemResp(out.v, m.op).ResponsePayload, nil
 	}
 	return nil, mwErr{out.v}
 }
@@ -715,17 +862,18 @@ func (n *mwNet) serve(conn net.Conn) {
 		if err := st.Recv(&req); err != nil {
 			return
 		}
-		tok := mwFailBase + 998 // a message that names no request
+		tok, op := mwFailBase+998, 0 // a message that names no request
 		var id []byte
 		if len(req.BatchItem) == 1 && len(req.BatchItem[0].UniqueBatchItemID) == 8 {
 			id = req.BatchItem[0].UniqueBatchItemID
 			if v, ok := n.recs.Load(binary.BigEndian.Uint64(id)); ok {
 				rec := v.(*mwRec)
-				out := rec.coreRun(mwReqTok(&req, rec), rec.netCtx, 0)
-				tok = mwCoreResult("srvmsg", out).resp // a handler error travels as a failed item
+				m := mwReqMsg(&req, rec)
+				out := rec.handlerRun(0, m, rec.netCtx, 0)
+				tok, op = mwCoreResult("srvmsg", out, m.op).resp, m.op // an error travels as a failed item
 			}
 		}
-		resp := mwMkResp(tok)
+		resp := mwMkResp(tok, op)
 		resp.Header.TimeStamp = time.Now()
 		resp.BatchItem[0].UniqueBatchItemID = id
 		if err := st.Send(resp); err != nil {
@@ -748,7 +896,7 @@ func (n *mwNet) adapter(next kmipclient.Next, ctx context.Context, msg *kmip.Req
 	if err != nil {
 		return nil, err // transport failure: not a token error, shows as code 999
 	}
-	if tok := mwRespTok(resp); tok >= mwFailBase {
+	if tok, _ := mwRespTok(resp); tok >= mwFailBase {
 		return nil, mwErr{tok - mwFailBase}
 	}
 	return resp, nil
@@ -768,9 +916,10 @@ func mwBuild(kind string, chain []mwStage) (*mwChain, error) {
 		// the scripted transport: a last middleware that never calls the real one
 		mws = append(mws, func(_ kmipclient.Next, ctx context.Context, msg *kmip.RequestMessage) (*kmip.ResponseMessage, error) {
 			rec := mwRecOf(ctx)
-			out := rec.coreRun(mwReqTok(msg, rec), mwCtxTok(ctx), 0)
+			m := mwReqMsg(msg, rec)
+			out := rec.handlerRun(0, m, mwCtxTok(ctx), 0)
 			if out.ok {
-				return mwMkResp(out.v), nil
+				return mwMkResp(out.v, m.op), nil
 			}
 			return nil, mwErr{out.v}
 		})
@@ -809,7 +958,6 @@ func mwBuild(kind string, chain []mwStage) (*mwChain, error) {
 				return mwMsgStage(st, next, ctx, msg)
 			})
 		}
-		ch.exec.Route(kmip.OperationActivate, mwHandler{})
 	case "srvitem":
 		ch.exec = kmipserver.NewBatchExecutor()
 		for i := range chain {
@@ -818,9 +966,13 @@ func mwBuild(kind string, chain []mwStage) (*mwChain, error) {
 				return mwItemStage(st, next, ctx, bi)
 			})
 		}
-		ch.exec.Route(kmip.OperationActivate, mwHandler{})
 	default:
 		return nil, fmt.Errorf("unknown kind %q", kind)
+	}
+	if ch.exec != nil {
+		// two routed operations with DISTINCT handlers; Archive (operation 3) stays unrouted
+		ch.exec.Route(kmip.OperationActivate, mwHandler{1})
+		ch.exec.Route(kmip.OperationRevoke, mwHandler{2})
 	}
 	return ch, nil
 }
@@ -843,14 +995,12 @@ func (ch *mwChain) run(cs *mwCase, yield, realTransport bool) (answer string, re
 			rec.netID = ch.net.nextID.Add(1)
 			ch.net.recs.Store(rec.netID, rec)
 			defer ch.net.recs.Delete(rec.netID)
-			resp, err := ch.net.client.Roundtrip(ctx, mwMkReq(cs.m0))
-			return mwR{mwRespTok(resp), mwErrTok(err)}
+			return mwMsgR(ch.net.client.Roundtrip(ctx, mwMkReq(cs.m0)))
 		}
 		if ch.client != nil {
-			resp, err := ch.client.Roundtrip(ctx, mwMkReq(cs.m0))
-			return mwR{mwRespTok(resp), mwErrTok(err)}
+			return mwMsgR(ch.client.Roundtrip(ctx, mwMkReq(cs.m0)))
 		}
-		return mwR{mwRespTok(ch.exec.HandleRequest(ctx, mwMkReq(cs.m0))), mwNil}
+		return mwMsgR(ch.exec.HandleRequest(ctx, mwMkReq(cs.m0)), nil)
 	})
 	if panicked != "" {
 		return "panic " + panicKey(panicked), rec, final, panicked
@@ -861,26 +1011,27 @@ func (ch *mwChain) run(cs *mwCase, yield, realTransport bool) (answer string, re
 // ---------------------------------------------------------------------------------------------
 // parsing (the grammar of lean/Driver/Middleware.lean)
 
+func mwParseNat(s string) (int, error) {
+	v, err := strconv.Atoi(s)
+	if err != nil || v < 0 || s == "" || s[0] == '+' {
+		return 0, fmt.Errorf("bad number %q", s)
+	}
+	return v, nil
+}
+
 func mwParseTr(s string) (mwTr, error) {
 	if len(s) < 2 || (s[0] != 't' && s[0] != 'k') {
 		return mwTr{}, fmt.Errorf("bad transform %q", s)
 	}
-	v, err := strconv.Atoi(s[1:])
-	if err != nil || v < 0 {
-		return mwTr{}, fmt.Errorf("bad transform %q", s)
-	}
-	return mwTr{konst: s[0] == 'k', v: v}, nil
+	v, err := mwParseNat(s[1:])
+	return mwTr{konst: s[0] == 'k', v: v}, err
 }
 
 func mwParseOpt(s string) (int, error) {
 	if s == "n" {
 		return mwNil, nil
 	}
-	v, err := strconv.Atoi(s)
-	if err != nil || v < 0 {
-		return 0, fmt.Errorf("bad value %q", s)
-	}
-	return v, nil
+	return mwParseNat(s)
 }
 
 func mwParseRet(s string) (mwRet, error) {
@@ -890,10 +1041,19 @@ func mwParseRet(s string) (mwRet, error) {
 	case strings.HasPrefix(s, "F"):
 		a, b, ok := strings.Cut(s[1:], ",")
 		if ok {
-			ra, e1 := mwParseOpt(a)
-			rb, e2 := mwParseOpt(b)
-			if e1 == nil && e2 == nil {
-				return mwRet{mode: 'F', fixed: mwR{ra, rb}}, nil
+			r := mwR{mwNil, 0, mwNil}
+			var e1, e2, e3 error
+			if a != "n" {
+				t, o, hasOp := strings.Cut(a, "@")
+				r.resp, e1 = mwParseNat(t)
+				r.rop = 1
+				if hasOp {
+					r.rop, e2 = mwParseNat(o)
+				}
+			}
+			r.err, e3 = mwParseOpt(b)
+			if e1 == nil && e2 == nil && e3 == nil {
+				return mwRet{mode: 'F', fixed: r}, nil
 			}
 		}
 	}
@@ -907,6 +1067,9 @@ func mwParseAct(s string) (mwAct, error) {
 	case strings.HasPrefix(s, "m"), strings.HasPrefix(s, "x"):
 		tr, err := mwParseTr(s[1:])
 		return mwAct{op: s[:1], tr: tr}, err
+	case strings.HasPrefix(s, "o"):
+		v, err := mwParseNat(s[1:])
+		return mwAct{op: "o", v: v}, err
 	case strings.HasPrefix(s, "rf"), strings.HasPrefix(s, "ro"):
 		rt, err := mwParseRet(s[2:])
 		return mwAct{op: s[:2], ret: rt}, err
@@ -940,7 +1103,7 @@ func mwParseChain(s string) ([]mwStage, error) {
 
 func mwParseOut(s string) (mwOut, error) {
 	if len(s) >= 2 && (s[0] == 'o' || s[0] == 'e') {
-		if v, err := strconv.Atoi(s[1:]); err == nil && v >= 0 {
+		if v, err := mwParseNat(s[1:]); err == nil {
 			return mwOut{ok: s[0] == 'o', v: v}, nil
 		}
 	}
@@ -968,8 +1131,8 @@ func mwParseCore(s string) (mwCore, error) {
 	}
 	if f[2] != "-" {
 		for _, x := range strings.Split(f[2], ",") {
-			v, err := strconv.Atoi(x)
-			if err != nil || v < 0 {
+			v, err := mwParseNat(x)
+			if err != nil {
 				return core, fmt.Errorf("bad core %q", s)
 			}
 			core.rej = append(core.rej, v)
@@ -978,7 +1141,7 @@ func mwParseCore(s string) (mwCore, error) {
 	return core, nil
 }
 
-func mwNewCase(kind, chainSrc, coreSrc string, m0, c0 int) (*mwCase, error) {
+func mwNewCase(kind, chainSrc, coreSrc string, m0 mwMsg, c0 int) (*mwCase, error) {
 	chain, err := mwParseChain(chainSrc)
 	if err != nil {
 		return nil, err
@@ -990,6 +1153,16 @@ func mwNewCase(kind, chainSrc, coreSrc string, m0, c0 int) (*mwCase, error) {
 	if kind != "client" && kind != "srvmsg" && kind != "srvitem" {
 		return nil, fmt.Errorf("unknown kind %q", kind)
 	}
+	if m0.op < 1 || m0.op > 3 {
+		return nil, fmt.Errorf("the harness realises operations 1..3 only, not %d", m0.op)
+	}
+	for _, st := range chain {
+		for _, a := range st.body {
+			if a.op == "o" && (a.v < 1 || a.v > 3) {
+				return nil, fmt.Errorf("the harness realises operations 1..3 only, not %d", a.v)
+			}
+		}
+	}
 	return &mwCase{kind: kind, chain: chain, chainSrc: chainSrc, core: core, coreSrc: coreSrc, m0: m0, c0: c0}, nil
 }
 
@@ -998,17 +1171,21 @@ func mwParseLine(l string) (*mwCase, error) {
 	if len(f) < 4 || f[0] != "mw.run" {
 		return nil, fmt.Errorf("not an mw.run line")
 	}
-	m0, c0 := 1, 1
+	ini := []int{1, 1, 1}
 	if len(f) >= 5 {
-		a, b, ok := strings.Cut(f[4], ",")
-		var e1, e2 error
-		m0, e1 = strconv.Atoi(a)
-		c0, e2 = strconv.Atoi(b)
-		if !ok || e1 != nil || e2 != nil {
+		parts := strings.Split(f[4], ",")
+		if len(parts) < 2 || len(parts) > 3 {
 			return nil, fmt.Errorf("bad initial tokens %q", f[4])
 		}
+		for i, p := range parts {
+			v, err := mwParseNat(p)
+			if err != nil {
+				return nil, fmt.Errorf("bad initial tokens %q", f[4])
+			}
+			ini[i] = v
+		}
 	}
-	return mwNewCase(f[1], f[2], f[3], m0, c0)
+	return mwNewCase(f[1], f[2], f[3], mwMsg{ini[0], ini[2]}, ini[1])
 }
 
 // ---------------------------------------------------------------------------------------------
@@ -1017,27 +1194,35 @@ func mwParseLine(l string) (*mwCase, error) {
 func init() {
 	register(&Engine{
 		Name: "mw",
-		Rule: "middleware chains as data: ALL chains of length 0..3 (quick) / 0..4 (thorough) over an alphabet of stage programs (pass-through, tag message and context, call twice / three times, retry while failed, short-circuit with a response / an error / (nil,nil), ignore or rewrite the inner result, return (nil,err), swallow the error, turn success into error, constant message / context) x handler scripts (always ok, fail n times then ok, always fail, refuse the unmodified message, alternate) x {client chain, server message chain, server batch item chain}, plus random chains of length 4..8 of random programs; every group of requests is run sequentially and then concurrently from 8 goroutines sharing the chain; distinct = distinct line; nontrivial = chain with at least two stages or a stage calling next other than once",
+		Rule: "middleware chains as data: ALL chains of length 0..3 (quick) / 0..4 (thorough) over an alphabet of stage programs (pass-through, tag message and context, call twice / three times, retry while failed, short-circuit with a response / an error / (nil,nil), ignore or rewrite the inner result, return (nil,err), swallow the error, turn success into error, constant message / context, REWRITE THE OPERATION of the message to another routed operation / to an unrouted one, call with the original then with the rewritten operation) x handler scripts (always ok, fail n times then ok, always fail, refuse the unmodified message, alternate) x initial operation (two routed to distinct handlers, one unrouted) x {client chain, server message chain, server batch item chain}, plus random chains of length 4..8 of random programs; every group of requests is run sequentially and then concurrently from 8 goroutines sharing the chain; distinct = distinct line; nontrivial = chain with at least two stages or a stage calling next other than once",
 		Run:  runMw,
 	})
 }
 
 // mwAlphabet: stage programs for position i (1-based): the position is the tag digit.
-func mwAlphabet(i int, thorough bool) []string {
+// level 0: the small alphabet used for the longest chains; 1: quick; 2: thorough.
+func mwAlphabet(i int, level int) []string {
 	d := strconv.Itoa(i)
 	a := []string{
-		"c",                           // pass-through
-		"mt" + d + ".xt" + d + ".c",   // tag message and context, pass on
-		"c.c",                         // call twice, return the second result
-		"c.f.f",                       // retry while failed, up to 3 calls (README retry middleware)
-		"rF7" + d + ",n",              // short-circuit with a response
-		"rFn," + d,                    // short-circuit with (nil, err) (README rate limiter)
-		"c.rF8" + d + ",n",            // ignore the inner result, return another
-		"c.rfe",                       // (nil, err) on failure (kmipserver.DebugMiddleware)
-		"c.mt" + d + ".xt" + d + ".c", // two calls with different messages / contexts
-		"c.roFn,6",                    // turn a success into an error
+		"c",                         // pass-through
+		"mt" + d + ".xt" + d + ".c", // tag message and context, pass on
+		"c.c",                       // call twice, return the second result
+		"c.f.f",                     // retry while failed, up to 3 calls (README retry middleware)
+		"rF7" + d + ",n",            // short-circuit with a response
+		"rFn," + d,                  // short-circuit with (nil, err) (README rate limiter)
+		"c.rfe",                     // (nil, err) on failure (kmipserver.DebugMiddleware)
+		"o2.c",                      // rewrite the operation to 2 (Revoke: handler 2)
+		"o3.c",                      // rewrite the operation to 3 (Archive: no handler)
+		"c.o1.mt" + d + ".c",        // call as received, then with operation 1 and a tagged message
 	}
-	if thorough {
+	if level >= 1 {
+		a = append(a,
+			"c.rF8"+d+"@2,n",      // ignore the inner result, return another (echoing operation 2)
+			"c.mt"+d+".xt"+d+".c", // two calls with different messages / contexts
+			"c.roFn,6",            // turn a success into an error
+		)
+	}
+	if level >= 2 {
 		a = append(a,
 			"c.rs",                  // swallow the error
 			"_",                     // (nil, nil) without calling
@@ -1046,13 +1231,15 @@ func mwAlphabet(i int, thorough bool) []string {
 			"c.c.c",                 // three unconditional calls
 			"c.rF9"+d+",4",          // both a response and an error
 			"mt"+d+".c.f.mt"+d+".f", // retry with a modified message
+			"o1.c",                  // rewrite the operation to 1 (Activate: handler 1)
+			"c.f.o2.f",              // retry, the last attempt with another operation
 		)
 	}
 	return a
 }
 
-// mwCores: handler scripts; "@" stands for the initial message of the request (a handler refusing
-// the message unless a stage replaced it).
+// mwCores: handler scripts; "@" stands for the initial message token of the request (a handler
+// refusing the message unless a stage replaced it).
 func mwCores(thorough bool) []string {
 	c := []string{"-:o5:-", "e1,e2:o5:-", "-:e4:-", "-:o5:@"}
 	if thorough {
@@ -1078,16 +1265,16 @@ func mwRandomStage(r *rng.R, i int, allowMulti bool) string {
 		case 2:
 			return "s"
 		case 3:
-			return "F" + strconv.Itoa(30+r.Intn(60)) + ",n"
+			return "F" + strconv.Itoa(30+r.Intn(60)) + "@" + strconv.Itoa(r.Intn(4)) + ",n"
 		}
-		opts := []string{"Fn," + strconv.Itoa(1+r.Intn(8)), "Fn,n", "F" + strconv.Itoa(mwFailBase+r.Intn(9)) + ",n", "F0,n", "F4" + d + "," + d}
+		opts := []string{"Fn," + strconv.Itoa(1+r.Intn(8)), "Fn,n", "F" + strconv.Itoa(mwFailBase+r.Intn(9)) + ",n", "F0@3,n", "F4" + d + "," + d}
 		return rng.Pick(r, opts)
 	}
 	n := 1 + r.Intn(5)
 	calls, ms, xs := 0, 0, 0
 	var acts []string
 	for k := 0; k < n; k++ {
-		switch r.Intn(9) {
+		switch r.Intn(10) {
 		case 0:
 			if ms == 0 { // at most one per stage: tokens stay far below 2^63
 				acts = append(acts, "m"+tr())
@@ -1115,6 +1302,8 @@ func mwRandomStage(r *rng.R, i int, allowMulti bool) string {
 			if k == n-1 {
 				acts = append(acts, "r"+ret())
 			}
+		case 9:
+			acts = append(acts, "o"+strconv.Itoa(1+r.Intn(3)))
 		}
 	}
 	if len(acts) == 0 {
@@ -1149,11 +1338,15 @@ func mwRunGroup(ctx *Ctx, g *mwGroup) {
 		seq[i] = answer
 		mwOracle(ctx, cs, line, answer, rec, final, p)
 		nontrivial := len(cs.chain) >= 2
+		rewrites := false
 		for _, st := range cs.chain {
 			k := 0
 			for _, a := range st.body {
 				if a.op == "c" || a.op == "f" {
 					k++
+				}
+				if a.op == "o" {
+					rewrites = true
 				}
 			}
 			if k != 1 {
@@ -1164,6 +1357,16 @@ func mwRunGroup(ctx *Ctx, g *mwGroup) {
 		ctx.Res.Count("mw.kind=" + cs.kind)
 		ctx.Res.Count(fmt.Sprintf("mw.len=%d", min(len(cs.chain), 9)))
 		ctx.Res.Count(fmt.Sprintf("mw.handler-runs=%s", mwBucket(rec.calls)))
+		ctx.Res.Count(fmt.Sprintf("mw.initial-op=%d", cs.m0.op))
+		if rewrites {
+			ctx.Res.Count("mw.chain-rewrites-operation")
+		}
+		for _, e := range rec.events {
+			if e.k == 'K' && e.m.op != cs.m0.op {
+				ctx.Res.Count("mw.handler-ran-on-rewritten-operation")
+				break
+			}
+		}
 	}
 	// client: the same chain in front of the REAL transport (Client.doRountrip over a pipe)
 	if ch.net != nil {
@@ -1253,7 +1456,8 @@ func mwOracle(ctx *Ctx, cs *mwCase, line, answer string, rec *mwRec, final mwR, 
 		}
 		viol("nested-composition", key, "nested composition gives "+mwClip(want)+" ; the library "+mwClip(answer))
 	}
-	// 2. the trace is one well-nested execution in registration order (no knowledge of the programs)
+	// 2. the trace is one well-nested execution in registration order in which the innermost
+	//    continuation acts on the message it was given (no knowledge of the programs)
 	if o, msg := mwCheckNested(cs, final, rec.events); o != "" {
 		viol("well-nested:"+o, o, msg)
 	}
@@ -1283,12 +1487,12 @@ func runMw(ctx *Ctx) {
 	}
 	kinds := []string{"client", "srvmsg", "srvitem"}
 	idx := 0
-	// one group = one chain, one request per handler script, with varying initial tokens
+	// one group = one chain, one request per handler script, with varying initial tokens / operation
 	group := func(kind, chainSrc string, cores []string) {
 		g := &mwGroup{kind: kind, chainSrc: chainSrc}
 		for k, tmpl := range cores {
-			m0, c0 := 1+(idx+k)%7, 1+(idx+2*k)%5
-			c, err := mwNewCase(kind, chainSrc, strings.ReplaceAll(tmpl, "@", strconv.Itoa(m0)), m0, c0)
+			m0, c0 := mwMsg{1 + (idx+k)%7, 1 + (idx/3+k)%3}, 1+(idx+2*k)%5
+			c, err := mwNewCase(kind, chainSrc, strings.ReplaceAll(tmpl, "@", strconv.Itoa(m0.tok)), m0, c0)
 			if err != nil {
 				ctx.Res.Fail("mw: " + err.Error())
 				return
@@ -1299,8 +1503,8 @@ func runMw(ctx *Ctx) {
 		mwRunGroup(ctx, g)
 	}
 	// exhaustive part: every word of length maxLen over the alphabet
-	var enum func(prefix []string, maxLen int, thorAlpha bool, cores []string)
-	enum = func(prefix []string, maxLen int, thorAlpha bool, cores []string) {
+	var enum func(prefix []string, maxLen, level int, cores []string)
+	enum = func(prefix []string, maxLen, level int, cores []string) {
 		if len(prefix) == maxLen {
 			src := "-"
 			if len(prefix) > 0 {
@@ -1311,15 +1515,19 @@ func runMw(ctx *Ctx) {
 			}
 			return
 		}
-		for _, p := range mwAlphabet(len(prefix)+1, thorAlpha) {
-			enum(append(append([]string{}, prefix...), p), maxLen, thorAlpha, cores)
+		for _, p := range mwAlphabet(len(prefix)+1, level) {
+			enum(append(append([]string{}, prefix...), p), maxLen, level, cores)
 		}
 	}
+	level := 1
+	if ctx.Thor {
+		level = 2
+	}
 	for l := 0; l <= 3; l++ {
-		enum(nil, l, ctx.Thor, mwCores(ctx.Thor))
+		enum(nil, l, level, mwCores(ctx.Thor))
 	}
 	if ctx.Thor {
-		enum(nil, 4, false, mwCores(false))
+		enum(nil, 4, 0, mwCores(false))
 	}
 	// random longer chains of random programs
 	r := ctx.R
@@ -1338,7 +1546,7 @@ func runMw(ctx *Ctx) {
 		}
 		src := strings.Join(stages, "/")
 		// keep the trace size reasonable
-		probe, err := mwNewCase("client", src, "-:e4:-", 1, 1)
+		probe, err := mwNewCase("client", src, "-:e4:-", mwMsg{1, 1}, 1)
 		if err != nil {
 			ctx.Res.Fail("mw: generator produced " + src + ": " + err.Error())
 			continue
